@@ -96,17 +96,28 @@ fn stdin_offset(env: &VEnv) -> usize {
     }
 }
 
-/// `probe args…` : `<$?>:<hex fields>@<stdin offset>`; preserves `$?`.
+/// `!nb` if the open file description of standard input is in non-blocking mode right now (a command
+/// is running: no read of the shell is in progress), else nothing
+fn stdin_mode(env: &VEnv) -> &'static str {
+    let state = STATE.with(|s| s.borrow().clone()).unwrap();
+    let st = state.borrow();
+    let Some(p) = st.processes.get(&env.main_pid) else { return "" };
+    let Some(body) = p.get_fd(Fd::STDIN) else { return "" };
+    if body.open_file_description.borrow().is_nonblocking() { "!nb" } else { "" }
+}
+
+/// `probe args…` : `<$?>:<hex fields>@<stdin offset>[!nb]`; preserves `$?`.
 fn probe_main(env: &mut VEnv, args: Vec<Field>) -> BuiltinFuture<'_> {
     let fields: Vec<String> = args.iter().map(|f| enc_str(&f.value)).collect();
     let st = env.exit_status.0;
     let off = stdin_offset(env);
+    let mode = stdin_mode(env);
     PROBES.set(PROBES.get() + 1);
     if PROBES.get() > 5000 {
         panic!("runaway: more than 5000 probe calls in one run");
     }
     Box::pin(async move {
-        let text = format!("{}:{}@{}\n", st, fields.join(","), off);
+        let text = format!("{}:{}@{}{}\n", st, fields.join(","), off, mode);
         match env.system.write_all(Fd::STDOUT, text.as_bytes()).await {
             Ok(_) => ExitStatus(st).into(),
             Err(_) => ExitStatus::FAILURE.into(),
@@ -129,6 +140,7 @@ fn run_feed(script: &[u8], data: &[u8], feed: &Feed) -> Outcome {
             c.source = SourceKind::Stdin;
             c
         }
+        Feed::Real(_) => unreachable!("the real-binary leg does not run on the virtual system"),
         Feed::Script => {
             // the bytes are stored into the file by `setup`
             let mut c = Config::new("");
@@ -237,12 +249,13 @@ fn alias_name_main(name: &'static str) -> impl Fn(&mut VEnv, Vec<Field>) -> Buil
     move |env, _args| {
         let st = env.exit_status.0;
         let off = stdin_offset(env);
+        let mode = stdin_mode(env);
         PROBES.set(PROBES.get() + 1);
         if PROBES.get() > 5000 {
             panic!("runaway: more than 5000 probe calls in one run");
         }
         Box::pin(async move {
-            let text = format!("{}:{}@{}\n", st, enc_str(&format!("@{name}")), off);
+            let text = format!("{}:{}@{}{}\n", st, enc_str(&format!("@{name}")), off, mode);
             match env.system.write_all(Fd::STDOUT, text.as_bytes()).await {
                 Ok(_) => ExitStatus(st).into(),
                 Err(_) => ExitStatus::FAILURE.into(),
@@ -472,6 +485,7 @@ struct Obs {
 }
 
 fn is_probe_line(l: &str) -> bool {
+    let l = l.strip_suffix("!nb").unwrap_or(l);
     let Some((st, rest)) = l.split_once(':') else { return false };
     let Some((fields, off)) = rest.rsplit_once('@') else { return false };
     !st.is_empty()
@@ -483,6 +497,115 @@ fn is_probe_line(l: &str) -> bool {
 
 fn observe(script: &[u8], data: &[u8], feed: &Feed) -> Obs {
     obs_of(run_feed(script, data, feed))
+}
+
+// ---------------------------------------------------------------------------------------------
+// the real binary
+
+/// (state, parent pid) of every process, from /proc
+fn proc_table() -> Vec<(i32, char, i32)> {
+    let mut v = vec![];
+    let Ok(rd) = std::fs::read_dir("/proc") else { return v };
+    for e in rd.flatten() {
+        let name = e.file_name();
+        let Some(pid) = name.to_str().and_then(|n| n.parse::<i32>().ok()) else { continue };
+        let Ok(stat) = std::fs::read_to_string(format!("/proc/{pid}/stat")) else { continue };
+        // pid (comm) state ppid …; comm may contain anything, so cut at the last `)`
+        let Some(close) = stat.rfind(')') else { continue };
+        let mut it = stat[close + 1..].split_whitespace();
+        let (Some(state), Some(ppid)) = (it.next(), it.next()) else { continue };
+        v.push((pid, state.chars().next().unwrap_or('?'), ppid.parse().unwrap_or(0)));
+    }
+    v
+}
+
+/// every process of the tree rooted at `root` is asleep (waiting for input, for a child, …) or a zombie
+fn tree_is_blocked(root: i32) -> bool {
+    let table = proc_table();
+    let mut tree = vec![root];
+    let mut i = 0;
+    while i < tree.len() {
+        let p = tree[i];
+        for (pid, _, ppid) in &table {
+            if *ppid == p && !tree.contains(pid) {
+                tree.push(*pid);
+            }
+        }
+        i += 1;
+    }
+    tree.iter().all(|p| match table.iter().find(|(pid, _, _)| pid == p) {
+        Some((_, st, _)) => *st == 'S' || *st == 'Z' || *st == 'X',
+        None => true,
+    })
+}
+
+/// Runs this executable as the shell (`yash_cli::main` on the real system) with the script arriving
+/// through a real pipe, inherited with O_NONBLOCK or not.  The units are written one at a time; the
+/// next one is written only when the pipe has been drained and every process of the shell's tree is
+/// blocked — so a reader of the shared standard input is really waiting in a gap between two chunks,
+/// without any dependence on timing.
+fn run_real(units: &[Vec<u8>], nonblock: bool) -> Outcome {
+    use std::io::{Read as _, Write as _};
+    use std::os::fd::{AsRawFd as _, FromRawFd as _, OwnedFd};
+    use std::os::unix::process::CommandExt as _;
+    let mut fds = [0i32; 2];
+    // SAFETY: plain system calls on fresh descriptors
+    unsafe {
+        if libc::pipe2(fds.as_mut_ptr(), libc::O_CLOEXEC) != 0 {
+            panic!("pipe2");
+        }
+        if nonblock {
+            libc::fcntl(fds[0], libc::F_SETFL, libc::O_NONBLOCK);
+        }
+    }
+    // SAFETY: the descriptors were just created and are owned here
+    let (reader, writer) = unsafe { (OwnedFd::from_raw_fd(fds[0]), OwnedFd::from_raw_fd(fds[1])) };
+    let exe = std::env::current_exe().expect("current_exe");
+    let mut child = std::process::Command::new(exe)
+        .arg0("yash")
+        .env("C18_AS_YASH", "1")
+        .env("LANG", "C")
+        .stdin(std::process::Stdio::from(reader))
+        .stdout(std::process::Stdio::piped())
+        .stderr(std::process::Stdio::piped())
+        .spawn()
+        .expect("spawn");
+    let pid = child.id() as i32;
+    let mut writer = std::fs::File::from(writer);
+    let mut stuck = false;
+    for (i, u) in units.iter().enumerate() {
+        if writer.write_all(u).is_err() {
+            break;
+        }
+        if i + 1 == units.len() {
+            break;
+        }
+        // wait for the gap: nothing left in the pipe and nobody running, three times in a row
+        let t0 = Instant::now();
+        let mut calm = 0;
+        while calm < 3 {
+            let mut pending: libc::c_int = 0;
+            // SAFETY: FIONREAD on an open pipe descriptor
+            unsafe { libc::ioctl(writer.as_raw_fd(), libc::FIONREAD, &mut pending) };
+            if pending == 0 && tree_is_blocked(pid) {
+                calm += 1;
+            } else {
+                calm = 0;
+            }
+            std::thread::sleep(Duration::from_millis(2));
+            if t0.elapsed() > Duration::from_secs(10) {
+                stuck = true;
+                break;
+            }
+        }
+    }
+    drop(writer);
+    let mut stdout = vec![];
+    let mut stderr = vec![];
+    child.stdout.take().unwrap().read_to_end(&mut stdout).ok();
+    child.stderr.take().unwrap().read_to_end(&mut stderr).ok();
+    let status = child.wait().map(|s| s.code().unwrap_or(-1)).unwrap_or(-1);
+    Outcome { stdout, stderr, exit_status: status, stuck }
 }
 
 fn obs_of(o: Outcome) -> Obs {
@@ -598,6 +721,7 @@ fn line_start(script: &[u8], o: usize) -> bool {
 }
 
 fn offset_of(item: &str) -> Option<usize> {
+    let item = item.strip_suffix("!nb").unwrap_or(item);
     if is_probe_line(item) { item.rsplit_once('@')?.1.parse().ok() } else { None }
 }
 
@@ -611,6 +735,24 @@ fn oracle(c: &Case, script: &[u8], obs: &Obs) -> String {
         return "FAIL:stuck".into();
     }
     let shared = !matches!(c.feed, Feed::Str | Feed::Script);
+    // (6) standard input is in blocking mode whenever a command runs, whatever mode it was inherited in
+    if obs.items.iter().any(|i| i.ends_with("!nb")) {
+        return "FAIL:stdin-nonblocking-while-command-runs".into();
+    }
+    if let Feed::Real(nb) = c.feed {
+        // the real binary: an external reader of the shared standard input must get the lines that
+        // follow it whatever the inherited mode of the pipe and the timing of the chunks
+        if !obs.echo.is_empty() {
+            return format!("FAIL:real-run-wrote-to-stderr {}", enc_bytes(&obs.echo));
+        }
+        if nb {
+            let other = obs_of(run_real(&c.units, false));
+            if other.items != obs.items || other.status != obs.status {
+                return format!("FAIL:inherited-nonblocking-mode-changes-run blocking={}", show(&other));
+            }
+        }
+        return "ok".into();
+    }
     // (1) the feed does not matter
     let reference = observe(script, &c.data, &Feed::File);
     match c.feed {
@@ -651,7 +793,7 @@ fn oracle(c: &Case, script: &[u8], obs: &Obs) -> String {
                 }
             }
         }
-        Feed::File => {}
+        Feed::File | Feed::Real(_) => {}
     }
     // a reported error (other than a command that was not found) is a syntax error: status 2
     if obs.err && obs.status != 2 {
@@ -755,7 +897,19 @@ fn run_case(line: &str) -> (String, String) {
     let s2 = script.clone();
     let mut oracle_text = String::from("-");
     let obs = guarded(|| {
-        let o = observe(&s2, &c2.data, &c2.feed);
+        let o = match c2.feed {
+            // (everything the real run writes to standard error is kept in `echo`: nothing is
+            // expected there, scripts of this leg do not use `set -v`)
+            Feed::Real(nb) => {
+                let out = run_real(&c2.units, nb);
+                let err = out.stderr.clone();
+                let mut o = obs_of(out);
+                o.echo = err;
+                o.err = false;
+                o
+            }
+            _ => observe(&s2, &c2.data, &c2.feed),
+        };
         let shown = show(&o);
         oracle_text = guarded(|| oracle(&c2, &s2, &o));
         shown
@@ -1327,6 +1481,8 @@ fn feeds_for(rng: &mut Rng, len: usize, thorough: bool) -> Vec<String> {
     let a = 1 + rng.below(9);
     let b = 1 + rng.below(17);
     v.push(format!("pipe:{}:{a},{b}", rng.below(3)));
+    // the same pipe inherited with O_NONBLOCK set
+    v.push(format!("nbpipe:1:{},{}", 1 + rng.below(9), 1 + rng.below(30)));
     if thorough {
         let c = 1 + rng.below(40);
         v.push(format!("pipe:1:{c}"));
@@ -1360,6 +1516,12 @@ fn all_chunkings(n: usize) -> Vec<Vec<usize>> {
 }
 
 fn main() {
+    if std::env::var_os("C18_AS_YASH").is_some() {
+        // the real-binary leg: this process *is* the shell (same sources as the library under test)
+        // SAFETY: single-threaded at this point
+        unsafe { std::env::remove_var("C18_AS_YASH") };
+        yash_cli::main();
+    }
     quiet_panics();
     let args: Vec<String> = std::env::args().collect();
     if args.get(1).map(|s| s.as_str()) == Some("--run") {
@@ -1498,6 +1660,20 @@ fn main() {
                 emit_case(case_text(&format!("pipe:1:{i},1,{}", len - i - 1), &data, &us));
             }
         }
+    }
+    // the real binary with an external `cat` reading the shared standard input, the script arriving in
+    // chunks with a gap, the pipe inherited blocking and non-blocking
+    let real_scripts: [&[&str]; 5] = [
+        &["cat\n", "echo d1\n", "echo d2 x\n"],
+        &["echo a\n", "cat\n", "echo x\n"],
+        &["read v\n", "data 1\n", "echo got $v\n", "cat\n", "echo tail\n"],
+        &["alias e='echo A'\n", "e 1\n", "cat\n", "e 2\n"],
+        &["(cat)\n", "echo in sub\n", "echo more\n"],
+    ];
+    for units in real_scripts {
+        let us: Vec<Vec<u8>> = units.iter().map(|u| u.as_bytes().to_vec()).collect();
+        emit_case(case_text("real:bl", &data, &us));
+        emit_case(case_text("real:nb", &data, &us));
     }
     let n = if o.thorough() { 40_000 } else { 1_500 };
     let mut rng = Rng::new(o.seed ^ 0xC18);
